@@ -16,3 +16,9 @@ for f in util/priority_queue.rs util/indexed_priority_queue.rs util/sync_cell.rs
 done
 sync_one $SRC/ports/output/broadcaster.rs $DST/ports/output/broadcaster.rs
 python3 /verif/tools/extract_sender.py $DST/ports/output/sender.rs
+
+# async-event (external crate used by channel.rs): the version pinned by /repo/Cargo.lock, verbatim from the cargo registry
+AEV=$(grep -A1 'name = "async-event"' /repo/Cargo.lock | grep version | sed 's/.*"\(.*\)"/\1/')
+AESRC=$(ls -d $HOME/.cargo/registry/src/*/async-event-$AEV/src 2>/dev/null | head -1)
+mkdir -p $DST/async_event
+if [ -n "$AESRC" ]; then sync_one $AESRC/lib.rs $DST/async_event/mod.rs; fi
